@@ -1,6 +1,7 @@
 """C02 — gradual difficulty equals prefix difficulty: the one structural clause (same converted and
 preprocessed map in the gradual constructor and the one-shot calculation)."""
 from props import C07
+import prov
 
 EXPLANATION = (
     "Decides four structural clauses only. R1: for each of the four modes the gradual constructor "
@@ -15,7 +16,7 @@ EXPLANATION = (
     "clock rate and multiplied by it again (inexact round trip; the one-shot path truncates the unscaled value). R5: a mode whose "
     "skills read a FORWARD neighbour of the current difficulty object (index = idx + k) builds the one-shot difficulty objects from the whole "
     "object list, as the gradual constructor does, and not from a list cut at passed_objects (the last note of a prefix would lose its successor "
-    "in one path only). Equality of the values per prefix (nth arithmetic, "
+    "in one path only). R6 (catch): the ObjectCountBuilder handed into the shared conversion — Regular{take} by the one-shot path, Gradual by the gradual one — is write-only there: its variant and fields are read only inside its own impl and its &self/&mut self methods return nothing, so the conversion (whose output is sorted by time only afterwards) cannot depend on the counting mode. R7 (catch): a counter kept under the same name by ObjectCount and GradualObjectCount is at least as wide in the gradual count and updated by the same expression in both arms. Equality of the values per prefix (nth arithmetic, "
     "count deltas) is numeric and NOT decided.")
 
 
@@ -46,6 +47,8 @@ def run(ctx):
     r3_counters(ctx, F)
     r4_roundtrip(ctx, F)
     r5_lookahead(ctx, F)
+    r6_count_mode_write_only(ctx, F)
+    r7_sibling_counters(ctx, F)
     ctx.not_decided('equality of the i-th gradual value with the one-shot value for passed_objects(i); number of values; '
                     'final value equals full calculation (arithmetic over runtime values)')
 
@@ -274,3 +277,97 @@ def r5_lookahead(ctx, F):
                 path, margins, ahead[:3]), f.where())
         else:
             ctx.ok('C02-R5', key, '%s reaches forward-neighbour accessors (%s) and builds its difficulty objects from the whole object list' % (path, ', '.join(x.split('::')[-1] for x in ahead)), f.where())
+
+
+# ---- R6 / R7: catch — the counting mode is the one input of the shared conversion that differs between the two paths
+OCB = 'catch::attributes::ObjectCountBuilder'
+REG, GRAD = 'catch::attributes::ObjectCount', 'catch::attributes::GradualObjectCount'
+WIDTH = {'bool': 1, 'u8': 8, 'u16': 16, 'u32': 32, 'u64': 64, 'usize': 64, 'u128': 128, 'i8': 8, 'i16': 16, 'i32': 32, 'i64': 64, 'isize': 64}
+
+
+def r6_count_mode_write_only(ctx, F):
+    """The one-shot path hands `Regular { take }` and the gradual path `Gradual` into the same conversion functions. If that conversion can
+    *observe* the counting mode (or how much of `take` is left), the two paths convert different object lists — and the list is sorted only
+    afterwards.  So: the builder's variant and fields are read only inside its own impl, and its `&self` / `&mut self` methods return nothing."""
+    import fieldidx
+    a = F.adts.get(OCB)
+    if a is None:
+        ctx.violation('C02-R6', 'anchor-missing:ObjectCountBuilder', 'catch::attributes::ObjectCountBuilder not found')
+        return
+    own = [f for f in F.fns if f.self_adt == OCB or (f.kind == 'Closure' and f.path.startswith(OCB + '::'))]
+    ownp = {f.path for f in own}
+    n = 0
+    for v in a['variants']:
+        for fl in v['fields']:
+            for acc in fieldidx.accesses(F, OCB, fl['name']):
+                if acc['fn'].path in ownp or acc['kind'] == 'agg-init':
+                    continue
+                n += 1
+                ctx.violation('C02-R6', 'field:%s:%s' % (fl['name'], acc['fn'].path), '%s reads/writes ObjectCountBuilder::%s.%s directly: the shared conversion may not depend on the counting mode' % (
+                    acc['fn'].path, v['name'], fl['name']), acc['fn'].where(acc['line']))
+    for fn in F.fns:
+        if fn.path in ownp:
+            continue
+        for bi, si, s in fn.assigns():
+            rv = s['rv']
+            if rv['k'] == 'discr':
+                ty = (fn.locals[rv['p']['l']].get('s') or '')
+                if 'ObjectCountBuilder' in ty and all(e == '*' or (isinstance(e, dict) and e.get('k') == 'deref') for e in rv['p'].get('proj', [])):
+                    ctx.violation('C02-R6', 'variant:%s' % fn.path, '%s matches on the variant of the ObjectCountBuilder: the conversion shared by the one-shot and the gradual path '
+                                  'behaves differently for the two' % fn.path, fn.where(s.get('ln')))
+    callers = F.callers()
+    observers = []
+    for m in own:
+        if m.kind != 'AssocFn' or not m.j.get('inputs'):
+            continue
+        recv = (m.j['inputs'][0].get('s') or '')
+        out = (m.j.get('output') or {}).get('s') or '()'
+        if recv.startswith('&') and out not in ('()', ''):
+            observers.append(m)
+            for fn, bi, t in callers.get(m.path, []):
+                if fn.path in ownp:
+                    continue
+                ctx.violation('C02-R6', 'observer:%s:%s' % (m.name, fn.path), '%s asks ObjectCountBuilder::%s() (-> %s): whatever it decides with the answer differs between the one-shot path '
+                              '(Regular, limited by passed_objects) and the gradual path (Gradual) — e.g. objects left unconverted before the list is sorted by time' % (
+                                  fn.path, m.name, out), fn.where(t.get('ln')))
+    recorders = [m for m in own if m.kind == 'AssocFn' and m.name.startswith('record_')]
+    ctx.ok('C02-R6', 'scan', 'ObjectCountBuilder: %d recorder(s) returning (), %d observer method(s) with callers outside the impl checked, no outside read of variant / fields' % (
+        len(recorders), len(observers)))
+    ctx.floor('C02-R6', len(recorders), 1, 'record_* methods of the catch count builder')
+
+
+def r7_sibling_counters(ctx, F):
+    """a counter kept under the same name by the regular and the gradual count is as wide in the gradual one and updated by the same expression"""
+    import fieldidx
+    import re as _re
+    ra, ga = F.adts.get(REG), F.adts.get(GRAD)
+    if ra is None or ga is None:
+        ctx.violation('C02-R7', 'anchor-missing:counts', 'ObjectCount / GradualObjectCount not found')
+        return
+    rf = {f['name']: f['ty']['s'] for f in ra['variants'][0]['fields']}
+    gf = {f['name']: f['ty']['s'] for f in ga['variants'][0]['fields']}
+    shared = sorted(set(rf) & set(gf))
+    gloc = '%s:%s' % (ga['loc'][0], ga['loc'][1])
+    ctx.floor('C02-R7', len(shared), 1, 'counters kept by both the regular and the gradual catch count')
+    for name in shared:
+        wr, wg = WIDTH.get(rf[name]), WIDTH.get(gf[name])
+        ctx.require(wr is not None and wg is not None and wg >= wr, 'C02-R7', 'width:' + name, '`%s`: %s (regular) / %s (gradual)' % (name, rf[name], gf[name]), gloc,
+                    bad='the gradual count keeps `%s` as %s while the regular count uses %s: a section with more than %s of them is counted differently by the gradual calculator' % (
+                        name, gf[name], rf[name], (2 ** wg - 1) if wg else '?'))
+
+        def updates(adt):
+            out = set()
+            for acc in fieldidx.accesses(F, adt, name):
+                if acc['kind'] != 'assign' or acc['fn'].self_adt != OCB:
+                    continue
+                fn = acc['fn']
+                s = acc['stmt']
+                v = prov.prov_of(fn).rvalue(s['rv'], acc['bb'], fn.blocks[acc['bb']]['s'].index(s))
+                txt = prov.show(v, maxdepth=8)
+                txt = _re.sub(r'\b(Regular|Gradual)\b', 'V', txt)
+                txt = _re.sub(r'\bas (u8|u16|u32|u64|usize)\b', 'as uN', txt)
+                out.add((fn.name, txt))
+            return out
+        ur, ug = updates(REG), updates(GRAD)
+        ctx.require(bool(ur) and ur == ug, 'C02-R7', 'update:' + name, '`%s` is updated alike in both arms: %s' % (name, sorted(ur)), gloc,
+                    bad='`%s` is updated by %s in the regular arm but by %s in the gradual arm' % (name, sorted(ur), sorted(ug)))
